@@ -359,6 +359,16 @@ def iter_elem(W, t):
             continue
         break
     fields = list(reversed(fields))
+    # index loop: `for i in 0..container.len() { .. container[i] .. }`
+    if isinstance(cur, tuple) and cur and cur[0] == "index":
+        ri = range_index(W, cur[2])
+        if ri is not None and W.expand(cur[1]) == ri["container"]:
+            return {"container": ri["container"], "what": "elem", "fields": tuple(fields), "site": ri["site"]}
+        return None
+    if not fields:
+        ri = range_index(W, cur)
+        if ri is not None:
+            return {"container": ri["container"], "what": "index", "fields": (), "site": ri["site"]}
     if not (isinstance(cur, tuple) and cur and cur[0] == "vfield" and cur[2] == "Some"):
         return None
     nxt = cur[1]
@@ -381,6 +391,48 @@ def iter_elem(W, t):
             what = "index"
         fields = fields[1:]
     return {"container": src, "what": what, "fields": tuple(fields), "site": nxt[3]}
+
+
+def range_index(W, t):
+    """`t` is the loop variable of `for i in 0..container.len()` where the container is not mutated inside the loop:
+    returns dict(container, site) or None."""
+    t = W.expand(t) if hasattr(W, "expand") else t
+    if not (isinstance(t, tuple) and t and t[0] == "vfield" and t[2] == "Some"):
+        return None
+    nxt = t[1]
+    if not is_call(nxt) or callee_name(nxt[1]) != "next" or "Range" not in nxt[1]:
+        return None
+    src = W.expand(nxt[2][0])
+    while isinstance(src, tuple) and src and src[0] == "reader":
+        src = src[1]
+    if not (isinstance(src, tuple) and src and src[0] == "agg" and str(src[1]).endswith("Range::Range") and len(src[2]) == 2):
+        return None
+    lo, hi = src[2]
+    if lo != ("int", 0):
+        return None
+    hi = W.expand(hi)
+    if isinstance(hi, tuple) and hi and hi[0] == "len":
+        cont = hi[1]
+    elif is_call(hi) and callee_name(hi[1]) == "len" and hi[2]:
+        cont = W.expand(hi[2][0])
+    else:
+        return None
+    # the container must not change while the loop runs
+    site = nxt[3]
+    fn = W.prog.fns.get(site[0])
+    if fn is None:
+        return None
+    loops = fn.in_loop(site[1])
+    if not loops:
+        return None
+    ev = W.ev(fn.path)
+    import flow as _flow
+    for l in loops:
+        for b in l["body"]:
+            for m in _flow.mutated_bases(fn, ev, b):
+                if m == cont or values.contains(cont, lambda x, m=m: x == m):
+                    return None
+    return {"container": cont, "site": site}
 
 
 def uncast(t):
